@@ -288,7 +288,10 @@ class UntaggedResponse(Response):
     async def async_write(self, writer: WriteStream) -> None:
         writing_hook = self.writing_hook or self._noop_cm()
         async with writing_hook:
-            await super().async_write(writer)
+            # Serialize all of it before any of it is written: a value that
+            # fails while it is produced must not leave half a line behind.
+            data = self.tobytes()
+        writer.write(data)
 
 
 class ResponseContinuation(Response):
